@@ -26,6 +26,8 @@ def programs(ctx: Ctx, n: int):
         yield text, widths, rws, "nest-family"
     for text, widths, rws in progs.range_fold_family(ctx.rng("rf"), 40 if ctx.quick else 800):
         yield text, widths, rws, "range-fold-family"
+    for text, widths, rws in progs.carried_family():
+        yield text, widths, rws, "carried-family"
     for text, widths, rws in progs.affine_family(ctx.rng("affine"), 60 if ctx.quick else 1500):
         yield text, widths, rws, "affine-family"
 
@@ -36,7 +38,7 @@ def run(ctx: Ctx):
     ctx.log(f"{len(cases)} (program, pass) pairs changed by a pass; {stats}")
     tv.judge(ctx, cases, metas, "C16")
     ctx.coverage.update({"pass_stats": stats, "passes": PASSES,
-                         "rule": "generated programs + exhaustive constant-bound loop family + loop nests + range-folding shapes + affine.for/affine.apply family x passes; only changed programs are executed"})
+                         "rule": "generated programs + exhaustive constant-bound loop family + loop nests + range-folding shapes + affine.for/affine.apply family + loop-carried permutation family x passes; only changed programs are executed"})
     ctx.sample({"pass": metas[0]["pass"], "before": metas[0]["text"], "after": metas[0].get("after", "")} if metas else "none")
     ctx.assumptions += ["Machine.tla is the reference semantics; a source loop with non-positive step is undefined and imposes nothing",
                         "lower-affine is exercised on affine.for with constant bounds and affine.apply (affine.if / load / store / parallel are not generated); frontend-desymrefy is not exercised"]
